@@ -5,7 +5,7 @@
    The model (SetModel.v) mirrors set/set.go of the current tree; it is tied to the code by
    the correspondence run of ./check C07.                                                    *)
 From Coq Require Import List Bool Permutation ZArith.
-From GT Require Import SetModel SetProofs.
+From GT Require Import SetModel SetProofs SetMultiModel SetMultiProofs.
 Import ListNotations.
 
 Section C07.
@@ -84,6 +84,23 @@ Section C07.
              (fun x (E : a_empty x = true) => False_ind _ (Bool.diff_false_true E)) H).
   Qed.
 
+  (* programs over several set variables (AddSet/RemoveSet take another variable, possibly the
+     same one, as argument): every run refines a vector of mathematical sets — in particular an
+     operation on one set never changes another one *)
+  Theorem C07_multi_refines : forall dom k ops,
+    Forall (mop_ok T dom) ops ->
+    map snd (m_run eqb (repeat s_nil k) ops) = am_run T eqb (repeat a_empty k) dom ops
+    /\ mwf T (m_final T eqb (repeat s_nil k) ops)
+    /\ mrel T eqb (m_final T eqb (repeat s_nil k) ops) (am_final T eqb (repeat a_empty k) dom ops).
+  Proof.
+    intros dom k ops H. destruct (init_ok T eqb dom k) as [A [B C]].
+    exact (mrun_refines T eqb eqb_eq dom ops _ _ A B C H).
+  Qed.
+
+  Theorem C07_frame : forall st o k,
+    k <> m_target o -> mget (fst (m_step eqb st o)) k = mget st k.
+  Proof. exact (mstep_frame T eqb). Qed.
+
   (* the pinned code (before fix ad9c99c) violated C07_has on repeated arguments *)
   Theorem C07_has_orig_refuted : forall a : T,
     exists s items, items <> [] /\ Forall (mem s) items /\ s_has_orig eqb s items = false.
@@ -112,4 +129,6 @@ Print Assumptions C07_addset.
 Print Assumptions C07_remove.
 Print Assumptions C07_removeset.
 Print Assumptions C07_refines.
+Print Assumptions C07_multi_refines.
+Print Assumptions C07_frame.
 Print Assumptions C07_has_orig_refuted.
